@@ -71,7 +71,7 @@ func c08Build() {
 		if err == nil {
 			w.env.NS = c08NS
 			w.opts = nsOpts(c08NS)
-			w.env.Vars = map[refeval.Name]refeval.Value{{Local: "n"}: 2.0, {Local: "s"}: "a", {Local: "and"}: 3.0, {Space: canonNS["p"], Local: "v"}: "pv", {Local: "x-1"}: 5.0, {Local: "_v"}: 7.0}
+			w.env.Vars = map[refeval.Name]refeval.Value{{Local: "n"}: 2.0, {Local: "s"}: "a", {Local: "and"}: 3.0, {Space: canonNS["p"], Local: "v"}: "pv", {Local: "x-1"}: 5.0, {Local: "_v"}: 7.0, {Local: "नाम"}: 11.0, {Space: canonNS["p"], Local: "col·lecció"}: 12.0}
 			out = append(out, w)
 		}
 	}
@@ -116,7 +116,8 @@ func c08Vocab(g *rng.R, d *adoc.Doc) (elems, attrs []xast.QN) {
 }
 
 var c08Binds = []xsel.ContextApply{xsel.WithVariable("n", xsel.Number(2)), xsel.WithVariable("s", xsel.String("a")), xsel.WithVariable("and", xsel.Number(3)),
-	xsel.WithVariableNS(canonNS["p"], "v", xsel.String("pv")), xsel.WithVariable("x-1", xsel.Number(5)), xsel.WithVariable("_v", xsel.Number(7))}
+	xsel.WithVariableNS(canonNS["p"], "v", xsel.String("pv")), xsel.WithVariable("x-1", xsel.Number(5)), xsel.WithVariable("_v", xsel.Number(7)),
+	xsel.WithVariable("नाम", xsel.Number(11)), xsel.WithVariableNS(canonNS["p"], "col·lecció", xsel.Number(12))}
 
 type libOutcome struct {
 	buildErr error
@@ -296,11 +297,12 @@ func refparseAxis(n string) bool {
 }
 
 var (
-	reQNameWS     = regexp.MustCompile(`([\w.#*-])[ \t\r\n]*:[ \t\r\n]*([\w#*])`)
-	reNumWS       = regexp.MustCompile(`(\d)[ \t\r\n]*\.[ \t\r\n]*(\d)`)
-	reNumWS2      = regexp.MustCompile(`(^|[^\w.)\]])\.[ \t\r\n]+(\d)`)
-	reAxisMangled = regexp.MustCompile(`\b(?:preceding|following)[._0-9]sibling\b|\b(?:ancestor|descendant)(?:[._0-9]or[._0-9-]self|-or[._0-9]self)\b`)
-	reSlashStar   = regexp.MustCompile(`(^|[(\[,=<>+|-]|and|or|div|mod)[ \t\r\n]*/[ \t\r\n]*\*`)
+	reQNameWS       = regexp.MustCompile(`([\w.#*-])[ \t\r\n]*:[ \t\r\n]*([\w#*])`)
+	reNumWS         = regexp.MustCompile(`(\d)[ \t\r\n]*\.[ \t\r\n]*(\d)`)
+	reNumWS2        = regexp.MustCompile(`(^|[^\w.)\]])\.[ \t\r\n]+(\d)`)
+	reAxisMangled   = regexp.MustCompile(`\b(?:preceding|following)[._0-9]sibling\b|\b(?:ancestor|descendant)(?:[._0-9]or[._0-9-]self|-or[._0-9]self)\b`)
+	reVarExtraColon = regexp.MustCompile(`(\$[\pL\pN\pM_#.·-]+:[\pL\pN\pM_#.·-]+)(?::[\pL\pN\pM_#.·:-]*)+`)
+	reSlashStar     = regexp.MustCompile(`(^|[(\[,=<>+|-]|and|or|div|mod)[ \t\r\n]*/[ \t\r\n]*\*`)
 )
 
 // c08Rewrites are string-level rewrites for strings the reference rejects but the library accepts.
@@ -333,6 +335,9 @@ var c08Rewrites = []struct {
 		return strings.NewReplacer(`\'`, "B", `\"`, "B").Replace(s)
 	}},
 	{"grammar-axis-name-lexing", func(s string) string { return reAxisMangled.ReplaceAllString(s, "self") }},
+	{"grammar-variable-repetition", func(s string) string {
+		return reVarExtraColon.ReplaceAllString(s, "$1")
+	}},
 	{"grammar-slash-star", func(s string) string {
 		return reSlashStar.ReplaceAllStringFunc(s, func(m string) string {
 			i := strings.Index(m, "/")
@@ -562,7 +567,7 @@ func c08Case(r *evid.Run, tier string, idx int, g *rng.R) {
 	elems, attrs := c08Vocab(g, d)
 	cfg := &xast.Cfg{Elems: elems, Attrs: attrs, Prefixes: []string{"p", "q", "r", "self", "node", "child"}, Targets: targets, Axes: xast.Axes, MaxSteps: 3, MaxDepth: 3, PredPct: 35, Abbrev: 50,
 		Unions: true, Filters: true, AbsInPred: true, FnSteps: true, StrLits: []string{"", "a", "1", " 2 ", "é", "x y", "it's", "q\"q", "a\\nb", "C:\\\\new", "t\\tt", "a\\b", "x\\", "a\\rb"}, NumLits: []float64{0, 1, 2, 0.5, 1.5, 100, 12.25},
-		Vars: []xast.VarSpec{{Local: "n", T: xast.TNum}, {Local: "s", T: xast.TStr}, {Local: "and", T: xast.TNum}, {Prefix: "p", Local: "v", T: xast.TStr}, {Local: "x-1", T: xast.TNum}}}
+		Vars: []xast.VarSpec{{Local: "n", T: xast.TNum}, {Local: "s", T: xast.TStr}, {Local: "and", T: xast.TNum}, {Prefix: "p", Local: "v", T: xast.TStr}, {Local: "x-1", T: xast.TNum}, {Local: "नाम", T: xast.TNum}, {Prefix: "p", Local: "col·lecció", T: xast.TNum}}}
 	funcs := map[string]bool{}
 	for k := range xast.AllFuncs {
 		funcs[k] = true
@@ -628,6 +633,13 @@ func c08Case(r *evid.Run, tier string, idx int, g *rng.R) {
 			default:
 				m = string(b[:i]) + rng.Pick(g, []string{" ", ":", "::", ".", "..", "/", "//", "*", "-", "|", "$", "@", ",", "div", "and", " or ", "1", "1.", ".5"}) + string(b[i:])
 			}
+			if exoticRunes(s, m) {
+				// swapping or deleting single bytes of multi-byte characters can create characters outside
+				// the repertoire the generators use; whether such a character may occur in a name is decided
+				// by tables (XML 1.0 2nd edition, Appendix B) which the recogniser only approximates
+				r.Count("mutants_not_judged_new_non_ascii_character", 1)
+				continue
+			}
 			c08Judge(r, idx, "mutant", "-", m, nil)
 		}
 	}
@@ -664,4 +676,19 @@ func c08Chain(g *rng.R) xast.Expr {
 		}
 	}
 	return e
+}
+
+// exoticRunes reports whether mutant m contains a non-ASCII character (other than U+FFFD) that its
+// source string does not contain.
+func exoticRunes(src, m string) bool {
+	have := map[rune]bool{}
+	for _, c := range src {
+		have[c] = true
+	}
+	for _, c := range string([]rune(m)) {
+		if c >= 0x80 && c != 0xFFFD && !have[c] {
+			return true
+		}
+	}
+	return false
 }
